@@ -368,6 +368,9 @@ pub fn run(tier: &str) -> i32 {
     ev.set("key_comparisons_against_primary", json!(s.keys_compared));
     ev.set("inconclusive_runs", json!(s.inconclusive));
     ev.set("known_findings_seen", json!(v.known_seen()));
+    // Engine R: the same oracle over real nun-db processes (src/bin/main.rs, TCP links, signals, timer thread)
+    let real = crate::realparts::c04_real(&v, if thorough { 96 } else { 8 }, seed());
+    ev.set("real_processes", real.to_json());
     ev.violations = v.violation_count();
     ev.assumptions = vec![
         "cluster formed by sequential joins (the region where C07 holds); runs whose formation fails are inconclusive".into(),
@@ -377,6 +380,10 @@ pub fn run(tier: &str) -> i32 {
     ev.write();
     cleanup_scratch();
     let code = v.finish(tier);
+    if code == 0 && real.runs > 0 && (real.runs - real.inconclusive) * 2 < real.runs {
+        println!("INCONCLUSIVE property=C04 reason=the real-process part could judge only {} of {} runs", real.runs - real.inconclusive, real.runs);
+        return 2;
+    }
     if code == 0 && (s.shapes.len() < 150 || s.inconclusive > s.runs / 10 + 3) {
         println!("INCONCLUSIVE property=C04 reason=coverage floor not met ({} shapes, {} inconclusive runs)", s.shapes.len(), s.inconclusive);
         return 2;
